@@ -19,6 +19,7 @@ class G(object):
         self.depth = kw.get("depth", 5)
         self.obs = kw.get("obs", 0.1)               # active / read observations
         self.shapes = kw.get("shapes", True)
+        self.nonasync = kw.get("nonasync", 0.0)
 
 
 def gen_ref(g, nown, ninh):
@@ -160,6 +161,8 @@ def gen_seq(g, depth, nown, ninh, fresh, steps, in_with, handler=False):
         return ["syncfut", r, nxt(nown, fr), gen_handler(g, depth, nown, ninh, in_with)]
     if a == "with":
         c = ["plain"] if rng.random() < 0.4 else ["override", rng.randrange(2), rng.randint(1, 9)]
+        if getattr(g, "nonasync", 0) and rng.random() < g.nonasync:
+            c = ["nonasync"]
         if rng.random() < 0.5:
             # single-path block (no try/except inside, so only the success path reaches `endwith`): the number of
             # futures it creates is known and the continuation can be arbitrary
@@ -256,6 +259,7 @@ PROFILES = {
     "yield_ctx": dict(sync=0.0, ctx=0.5, err=0.5, lazy=0.1, obs=0.3),
     "full": dict(sync=0.35, ctx=0.4, err=1.0, lazy=0.15, obs=0.3),
     "sync": dict(sync=0.6, ctx=0.0, err=0.5, lazy=0.1, obs=0.3),
+    "nonasync": dict(sync=0.25, ctx=0.7, err=0.5, lazy=0.1, obs=0.2, nonasync=0.4),
 }
 
 
